@@ -59,6 +59,7 @@ def exit_region(body, S, loop_blocks, start, state):
     state on the way is resolved with that value, every other branch is followed both ways.  With several state variables
     (S a tuple of locals, state a dict local -> value) each test is resolved with the value of the variable it reads."""
     multi = state if isinstance(state, dict) else None
+    state0 = state
     seen = set()
     work = [start]
     while work:
@@ -70,9 +71,19 @@ def exit_region(body, S, loop_blocks, start, state):
         nxt = body.succs(b)
         if t["t"] == "switch":
             sl = scanact.switch_local(body, b)
+            state = state0
             if sl is not None and multi is not None and sl[0] in multi:
                 state = multi[sl[0]]
-            if sl is not None and (sl[0] == S or (multi is not None and sl[0] in multi)):
+            single = None
+            if sl is not None and not (sl[0] == S or (multi is not None and sl[0] in multi)):
+                # a test of a variable that has one definition, a constant: decided (the `match state` that only the
+                # initial value reaches once every assignment has been threaded to its own arm)
+                ds_ = [d_ for d_ in body.defs().get(sl[0], []) if not body.is_cleanup(d_[0])]
+                if len(ds_) == 1 and ds_[0][2] == "rv":
+                    single = scanact.const_state_value(strip(body._rv_term(ds_[0][3])))
+                if single is not None:
+                    state = single
+            if sl is not None and (sl[0] == S or (multi is not None and sl[0] in multi) or single is not None):
                 local, is_d, variants_, neg = sl
                 keep = []
                 for (lab, tg) in body.edges(b):
@@ -196,10 +207,12 @@ def guardxform_obligations(ctx, facts, key, rule="GUARDXFORM"):
     ctx.ob(rule, "%s: the scan loop reads the chars of the function's text argument" % key, subj == ("arg", 1), fn=key, site=site, detail=nshow(subj))
     subject_ok = lambda t: strip_conv(t) == ("arg", 1)  # noqa: E731
     st, paths, is_elem, exit_none = scanact.loop_transitions(facts, summ, body, loop)
-    if len(st) < 1 or len(st) > 3:
+    if len(st) > 3:
         raise AnchorError("expected one loop-carried state variable (or up to three flags), found %d" % len(st), key)
     SL = sorted(st)
-    multi = len(SL) > 1
+    # no state variable at all: every decision is taken on the way out (each `break` arm runs its own action, the
+    # exhausted scan another) -- the product of zero flags, one state
+    multi = len(SL) != 1
     if multi and not all(v[0] == "bool" for l_ in SL for v in st[l_]["values"]):
         raise AnchorError("several loop-carried state variables that are not all flags", key)
     S = SL[0] if not multi else tuple(SL)
@@ -208,7 +221,7 @@ def guardxform_obligations(ctx, facts, key, rule="GUARDXFORM"):
         """name of a (product) state: the single variable's value, or `flag1=..,flag2=..` in the order the flags are declared"""
         if not multi:
             return sname(sd[SL[0]])
-        return ",".join("flag%d=%s" % (n_ + 1, sname(sd[l_])) for n_, l_ in enumerate(SL))
+        return ",".join("flag%d=%s" % (n_ + 1, sname(sd[l_])) for n_, l_ in enumerate(SL)) or "scanning"
     # initial state: the constant assigned in a block dominating the loop header
     init_sd = {}
     for l_ in SL:
